@@ -128,6 +128,9 @@ def specLines (ws : List String) : Option (List Line) :=
   | ["uop", k, t] => do genUnop (← nkOf? k) (← tydOf? t)
   | ["cell", f, t] => do some (cast (← tydOf? f) (← tydOf? t))
   | ["tobool", f] => do some (cast (← tydOf? f) ty_bool)
+  | ["load", t] => do some (load (← tydOf? t))
+  | ["store", t] => do some (store (← tydOf? t))
+  | ["push"] => some [ins1 "push" (.r "%rax"), ins1 "pop" (.r "%rdi")]
   | _ => none
 
 def seqLine (line : String) : String :=
@@ -137,15 +140,29 @@ def seqLine (line : String) : String :=
 
 def b01 (b : Bool) : String := if b then "1" else "0"
 
+/-- little-endian bytes of a quadword placed at address `a` -/
+def memWith (a : Nat) (q : Nat) (rest : BitVec 64 → BitVec 8) : BitVec 64 → BitVec 8 :=
+  fun x => if a ≤ x.toNat ∧ x.toNat < a + 8 then BitVec.ofNat 8 (q >>> (8 * (x.toNat - a))) else rest x
+
+/-- `spec | rax rdi rcx rdx [mem]`.  With the optional 5th number the state has the quadword `mem` at address 0x1000;
+    for `load` specs `%rax` = 0x1000 on entry; for `store` specs `%rsp` = 0x2000 and the quadword at 0x2000 is 0x1000
+    (the object's address on top of the stack); for `push` `%rsp` = 0x2008.  The quadword at 0x1000 afterwards and `%rsp`
+    are printed as 11th and 12th field. -/
 def x86Line (line : String) : String :=
   match line.splitOn "|" with
   | [spec, regs] =>
-    match specLines (words spec), (words regs).map String.toNat? with
-    | some ls, [some a, some d, some c, some x] =>
+    let ws := words spec
+    match specLines ws, (words regs).map String.toNat? with
+    | some ls, (some a :: some d :: some c :: some x :: rest) =>
+      let q : Nat := match rest with | [some q] => q | _ => 0
+      let kind := ws.headD ""
+      let rax := if kind = "load" then 0x1000 else a
+      let rsp := if kind = "store" then 0x2000 else if kind = "push" then 0x2008 else 0
       let s0 : X86.State := { regs := fun r => match r with
-                                | .rax => BitVec.ofNat 64 a | .rdi => BitVec.ofNat 64 d
-                                | .rcx => BitVec.ofNat 64 c | .rdx => BitVec.ofNat 64 x | _ => 0#64,
-                              mem := fun _ => 0#8 }
+                                | .rax => BitVec.ofNat 64 rax | .rdi => BitVec.ofNat 64 d
+                                | .rcx => BitVec.ofNat 64 c | .rdx => BitVec.ofNat 64 x
+                                | .rsp => BitVec.ofNat 64 rsp | _ => 0#64,
+                              mem := memWith 0x1000 q (memWith 0x2000 0x1000 (fun _ => 0#8)) }
       let is := ls.flatMap Line.instrs
       match X86.decodeAll is with
       | none => "undecodable"
@@ -154,7 +171,8 @@ def x86Line (line : String) : String :=
         | none => "fault"
         | some s =>
           s!"ok {(s.get .rax).toNat} {(s.get .rdi).toNat} {(s.get .rcx).toNat} {(s.get .rdx).toNat} " ++
-          s!"{b01 s.zf} {b01 s.sf} {b01 s.cf} {b01 s.of} {b01 s.pf} {b01 s.flagsValid}"
+          s!"{b01 s.zf} {b01 s.sf} {b01 s.cf} {b01 s.of} {b01 s.pf} {b01 s.flagsValid} " ++
+          s!"{(s.read64 0x1000#64).toNat} {(s.get .rsp).toNat}"
     | _, _ => "bad"
   | _ => "bad"
 
